@@ -28,10 +28,13 @@ def make_doc(rng, kind):
         if t == 'tb':
             return G.event_xml('tb', '/s2/', [('q', str(n_ev))])
         props = [('p', 'e%d' % n_ev), ('p', rng.choice(vals))]
-        if rng.random() < 0.5:
+        if kind == 'blank-values':
+            props = [('p', rng.choice([' ', '\n ', ' \t ', '  '])), ('p', 'e%d' % n_ev), ('event', rng.choice([' ', '\n']))]
+        if rng.random() < 0.5 and kind != 'blank-values':
             props.append((rng.choice(['event', 'ontology', 'edxml']), rng.choice(vals)))
         return G.event_xml('ta', s, props)
-    plan = {'single': 'EEE', 'two': 'EOEb', 'three': 'EOEbOE', 'adjacent': 'OOEbE', 'foreign': 'EFEOFb', 'tail-ontology': 'EEO'}[kind]
+    plan = {'single': 'EEE', 'two': 'EOEb', 'three': 'EOEbOE', 'adjacent': 'OOEbE', 'foreign': 'EFEOFb', 'tail-ontology': 'EEO',
+            'blank-values': 'EOE', 'tail-text': 'EOEbTET'}[kind]
     onts = [more1, more2]
     for ch in plan:
         if ch == 'E':
@@ -43,6 +46,9 @@ def make_doc(rng, kind):
         elif ch == 'O':
             children.append(OL.onto_xml(onts.pop(0)))
             kinds.append('O')
+        elif ch == 'T':
+            # character data between the children of the root element (belongs to the previous child as its tail)
+            children[-1] = children[-1] + rng.choice(['stray text', ' x ', 'text &amp; more'])
         else:
             children.append('<f:note xmlns:f="http://f/" k="v%d">text<f:inner/></f:note>' % len(children))
             kinds.append('F')
@@ -149,14 +155,14 @@ def main(argv):
     ck.prove()
     rng = ck.rng
     terms, metas = [], []
-    kinds_list = ['single', 'two', 'three', 'adjacent', 'foreign', 'tail-ontology']
-    docs = [(k, make_doc(rng, k)) for k in (kinds_list if ck.thorough() else ['two', 'three', 'adjacent', 'foreign'])]
+    kinds_list = ['single', 'two', 'three', 'adjacent', 'foreign', 'tail-ontology', 'blank-values', 'tail-text']
+    docs = [(k, make_doc(rng, k)) for k in (kinds_list if ck.thorough() else ['two', 'three', 'adjacent', 'foreign', 'blank-values', 'tail-text'])]
     seen = 0
     for name, (children, kinds) in docs:
         foreign = 'F' in kinds
         data = G.document(children, extra_ns='')
         want = pull_trace(data, foreign)
-        if want[1] is not None:
+        if want[1] is not None and name != 'tail-text':
             ck.oracle_failures.append({'signature': 'pull-parser-rejects-generated-document/' + name, 'input': {'document': data.decode('latin-1')}, 'observed': want[1]})
             continue
         offs = child_offsets(data, children)
@@ -173,13 +179,21 @@ def main(argv):
             ck.dist('chunks:%s' % ('2' if len(cuts) == 2 else 'bytewise' if len(cuts) == n else 'k'))
             if len(cuts) == 2:
                 ck.dist('cut:' + classify(data, children, kinds, cuts[0]))
+            blank_case = False
             if got != want:
                 where = classify(data, children, kinds, cuts[0]) if len(cuts) == 2 else 'multi-chunk'
                 failing = got[1] or ('callbacks-differ' if got[0] != want[0] else 'none')
+                import re as _re
+                blank_cuts = [c for c in cuts[:-1] if _re.search(rb'>[ \t\r\n]+<$', data[:c]) and data[c:c + 1] == b'/']
+                if blank_cuts:
+                    # chunk ends between a white-space-only value and its end tag: would the remaining cuts alone be harmless?
+                    rest = [c for c in cuts if c not in blank_cuts]
+                    if push_trace(data, rest, foreign) == want:
+                        where, failing, blank_case = 'blank-value-cut-before-end-tag', 'value-dropped', True
                 ck.oracle_failures.append({'signature': 'chunking/%s/%s' % (where, failing),
                                            'input': {'document': data.decode('latin-1'), 'cuts': cuts, 'foreign': foreign, 'doc_kind': name},
                                            'observed': 'push: error=%s callbacks=%d; pull: callbacks=%d' % (got[1], len(got[0]), len(want[0]))})
-            if not foreign and (len(cuts) != 2 or cuts[0] % 7 == 0):
+            if not foreign and not blank_case and name != 'tail-text' and (len(cuts) != 2 or cuts[0] % 7 == 0):
                 # correspondence with the model: ids = child index
                 ids, oi = [], 0
                 model_children = [C('Build_child', C('COnt' if k == 'O' else 'CEv'), i, st, en) for i, (k, (st, en)) in enumerate(zip(kinds, offs))]
@@ -194,8 +208,8 @@ def main(argv):
         ck.sample({'doc_kind': name, 'bytes': n, 'children': kinds, 'offsets': offs})
         # filters
         for cuts in ([n // 2, n], [n // 3, 2 * n // 3, n], list(range(1, n + 1))[::97] + [n]):
-            if foreign:
-                break
+            if foreign or name == 'tail-text':
+                break          # character data between the children is no EDXML content; whether a filter copies it is not part of the property
             try:
                 a, b = filter_bytes(data, cuts)
                 ck.cov['evaluations'] += 1
